@@ -22,7 +22,8 @@ import traceback
 
 ROOT = os.path.dirname(os.path.dirname(os.path.abspath(__file__)))
 REPO = os.environ.get("VERIF_REPO", "/repo")
-LEAN = os.path.join(ROOT, "lean")
+# VERIF_LEAN: a private copy of the lake project (parallel trial runs against scratch worktrees)
+LEAN = os.environ.get("VERIF_LEAN") or os.path.join(ROOT, "lean")
 PY = os.environ.get("VERIF_PY", "/venv/bin/python")
 TRX = os.path.join(REPO, "src/target/trx_toolkit")
 DRIVER = None  # per-property executables: see driver_exe()
@@ -538,7 +539,7 @@ class Run:
             "violations": len(self.violations),
         }
         # trial runs against a scratch copy of the repository never overwrite the committed evidence
-        evdir = os.path.join(ROOT, "evidence") if os.path.realpath(REPO) == "/repo" else os.path.join(ROOT, "build", "trial-evidence")
+        evdir = os.path.join(ROOT, "evidence") if os.path.realpath(REPO) == "/repo" else (os.environ.get("VERIF_TRIAL_EVIDENCE") or os.path.join(ROOT, "build", "trial-evidence"))
         os.makedirs(evdir, exist_ok=True)
         rc = 0
         if self.violations:
